@@ -27,16 +27,24 @@ Definition tx_codes (sc : schema) (topo : list nat) (t : txrec) : list N :=
     else states_to_set mt called s in
   let p1 := pass1_list c to_set in
   let res := resolved_list c to_set in
+  (* the attribution to the resolver's pass structure (221 231 232 251) is
+     only meaningful when the observed target IS what the modelled resolver
+     computes from the observed before/called: a target the model does not
+     produce gets the plain codes *)
+  let same := tx_auto t
+              || (forallb (fun x => mem x s') (target_states c to_set)
+                  && forallb (fun x => mem x (target_states c to_set)) s') in
   (if r1_ok sc s' then [] else [21%N])
-  ++ map (fun p : nat * nat => if mem (fst p) res && mem (snd p) res then 220%N else 221%N)
+  ++ map (fun p : nat * nat => if (mem (fst p) res && mem (snd p) res) || negb same then 220%N else 221%N)
          (r2_pairs sc s')
   ++ map (fun p : nat * nat =>
-            if negb (mem (fst p) res) then 231%N
+            if negb same then 230%N
+            else if negb (mem (fst p) res) then 231%N
             else if mem (snd p) p1 && negb (mem (snd p) res) then 232%N
             else 230%N)
          (r3_missing sc mt called s s')
   ++ (if r4_gain_ok sc mt called s s' then [] else [24%N])
-  ++ map (fun l => if forallb (fun r => mem r p1) (s_require (sget sc l)) then 250%N else 251%N)
+  ++ map (fun l => if forallb (fun r => mem r p1) (s_require (sget sc l)) || negb same then 250%N else 251%N)
          (filter (fun l => negb (loss_justified sc mt called s s' l)) (diff s s')).
 
 Definition violations (k : hcase) : list N :=
